@@ -309,9 +309,12 @@ Definition batch_drain (n : nat) (st : batch_st) : batch_st * list action :=
    acts ++ (if b_completing st && (match w' with [] => true | _ => false end)
             then [ADown DComplete; AShutdown] else [])).
 
-Definition batch_request (c : cfg) (st : batch_st) : batch_st * list action :=
+(* the window must be able to hold a full batch: limit = max(InitialDemand, maxSize)
+   (fixes/C45-batch-size-exceeds-demand-window.diff; identical to the code before that repair when
+   maxSize <= InitialDemand) *)
+Definition batch_request (n : nat) (c : cfg) (st : batch_st) : batch_st * list action :=
   if b_completing st then (st, []) else
-  let available := c_init c - b_credit st - Z.of_nat (length (b_window st)) in
+  let available := Z.max (c_init c) (Z.of_nat n) - b_credit st - Z.of_nat (length (b_window st)) in
   if available <=? 0 then (st, []) else
   if b_credit st >? c_refill c then (st, []) else
   ({| b_window := b_window st; b_credit := b_credit st + available; b_demand := b_demand st;
@@ -323,11 +326,11 @@ Definition batch_recv (n : nat) (c : cfg) (st : batch_st) (m : inmsg) : batch_st
   | FromDown (URequest k) =>
     let '(st2, a2) := batch_drain n {| b_window := b_window st; b_credit := b_credit st;
                                        b_demand := b_demand st + k; b_completing := b_completing st |} in
-    let '(st3, a3) := batch_request c st2 in (st3, a2 ++ a3)
+    let '(st3, a3) := batch_request n c st2 in (st3, a2 ++ a3)
   | FromUp (DElem (VZ x)) =>
     let '(st2, a2) := batch_drain n {| b_window := b_window st ++ [x]; b_credit := b_credit st - 1;
                                        b_demand := b_demand st; b_completing := b_completing st |} in
-    let '(st3, a3) := batch_request c st2 in (st3, a2 ++ a3)
+    let '(st3, a3) := batch_request n c st2 in (st3, a2 ++ a3)
   | FromUp (DElem (VL _)) =>
     ({| b_window := b_window st; b_credit := b_credit st - 1; b_demand := b_demand st;
         b_completing := b_completing st |},
@@ -349,13 +352,13 @@ Definition batch_flush0 (st : batch_st) : batch_st * list action :=
 Definition batch_recv0 (n : nat) (c : cfg) (st : batch_st) (m : inmsg) : batch_st * list action :=
   match m with
   | FromDown (URequest k) =>
-    batch_request c {| b_window := b_window st; b_credit := b_credit st; b_demand := b_demand st + k;
-                       b_completing := false |}
+    batch_request 0 c {| b_window := b_window st; b_credit := b_credit st; b_demand := b_demand st + k;
+                         b_completing := false |}
   | FromUp (DElem (VZ x)) =>
     let st1 := {| b_window := b_window st ++ [x]; b_credit := b_credit st - 1; b_demand := b_demand st;
                   b_completing := false |} in
     let '(st2, a2) := if (n <=? length (b_window st1))%nat then batch_flush0 st1 else (st1, []) in
-    let '(st3, a3) := batch_request c st2 in (st3, a2 ++ a3)
+    let '(st3, a3) := batch_request 0 c st2 in (st3, a2 ++ a3)
   | FromUp (DElem (VL _)) =>
     ({| b_window := b_window st; b_credit := b_credit st - 1; b_demand := b_demand st; b_completing := false |},
      [AUp UCancel; ADown (DError type_err); AShutdown])
